@@ -1152,6 +1152,19 @@ fn generate(rng: &mut Rng, tier: &str, w: &mut CaseWriter) {
         );
         push_hist(w, "ix", &fs4, &ix4, &[Op::SeekU(6), Op::ExactStd(3), Op::SeekU(11), Op::Read(70000), Op::Read(70000), Op::SeekU(0), Op::ExactStd(65548)]);
         push_hist(w, "mt", &fs4, &ix4, &[Op::Seek(t[3].0, 5), Op::Read(3), Op::SeekU(7), Op::Exact(6), Op::Seek(t[5].0, 0), Op::Read(1)]);
+        // reads one byte short of the direct-path threshold in front of a full block
+        let fs5 = vec![full.clone(), eof.clone()];
+        let l5 = assemble(&fs5);
+        push_hist(w, "rd", &fs5, &l5.full_index(), &[Op::Read(65535), Op::Read(65535), Op::Read(1), Op::Read(65535)]);
+        let fs6 = vec![b7.clone(), full.clone(), hello.clone(), eof.clone()];
+        let l6 = assemble(&fs6);
+        push_hist(
+            w,
+            "rd",
+            &fs6,
+            &l6.full_index(),
+            &[Op::Read(65535), Op::Read(65535), Op::Consume(70000), Op::Read(65536), Op::SeekU(7 + 65536), Op::Fill, Op::SeekU(7), Op::Exact(65537)],
+        );
         // empty file / marker only
         push_hist(w, "rd", &[], &[], &[Op::Read(3), Op::Seek(0, 0), Op::Fill, Op::Exact(0), Op::Exact(1)]);
         push_hist(w, "rd", &[eof.clone()], &[], &[Op::Read(3), Op::Seek(0, 0), Op::Fill, Op::SeekU(0), Op::Read(70000)]);
